@@ -17,6 +17,8 @@ import (
 //	                        expression performs, in order, with the exact index / key.  The array context of
 //	                        `tpl` answers "" for every index it does not have, so {9223372036854775807} (a group)
 //	                        and {9223372036854775808} (a key) look the same there; here they do not.
+//	wfck <opt> <template>   does Compile report a syntax error (errors.Is for the three sentinels)?  The model side does
+//	                        not compile: it answers with the decision procedure of the declarative grammar WellFormed.
 //	cerr <opt> <template>   errors.go as a user sees it: StageCount(), errors.Is for the three sentinels,
 //	                        Unwrap(), and the full Error() text.
 
@@ -51,6 +53,22 @@ func c09R4Run(f []string) (string, bool) {
 			log = strings.Join(ctx.log, ",")
 		}
 		return fmt.Sprintf("ok errs=%s val=%s log=%s", errsStr(errs), HexS(val), log), true
+	case "wfck":
+		if len(f) != 3 {
+			return "bad-args", true
+		}
+		compiled, errs := c09Builder(f[1] == "1").Compile(string(UnHex(f[2])))
+		if compiled == nil {
+			return "nil-compiled", true
+		}
+		syn := 0
+		if errs != nil {
+			var err error = errs
+			if errors.Is(err, expressions.ErrorUnterminated) || errors.Is(err, expressions.ErrorEmptyStatement) || errors.Is(err, expressions.ErrorMissingFunction) {
+				syn = 1
+			}
+		}
+		return fmt.Sprintf("ok syn=%d", syn), true
 	case "cerr":
 		if len(f) != 3 {
 			return "bad-args", true
@@ -94,7 +112,10 @@ var c09LoneWords = []string{
 func c09R4Gen(r *Rand, tier string) []string {
 	var out []string
 	look := func(o, t string) { out = append(out, fmt.Sprintf("look %s %s", o, HexS(t))) }
-	cerr := func(o, t string) { out = append(out, fmt.Sprintf("cerr %s %s", o, HexS(t))) }
+	cerr := func(o, t string) {
+		out = append(out, fmt.Sprintf("cerr %s %s", o, HexS(t)))
+		out = append(out, fmt.Sprintf("wfck %s %s", o, HexS(t)))
+	}
 	opts := []string{"0", "1"}
 	for i, w := range c09LoneWords {
 		o := opts[i%2]
